@@ -561,7 +561,10 @@ def _weighted_estimators(ck: Checker, prog: Program, rule: str):
                     if getattr(a, "func", None) is not None and getattr(a.func, "__name__", "") == "_nanmean_weighted":
                         M = a
                 Ma = args_by_name(prog, "statistics._nanmean_weighted", M) if M is not None else {}
-                if M is None or [Ma.get("distribution"), Ma.get("values"), Ma.get("weights")] != [dist, v, w]:
+                # with no weights given, handing the mean the unit weights built here (NaN where the transformed value is NaN - checked
+                # above as W) is the same as letting it build them itself
+                w_ok = Ma.get("weights") == w or (case(l, sp.Eq(w, NONE, evaluate=False)) is True and Ma.get("weights") in (W, NONE, sp.Function("default")(NONE)))
+                if M is None or [Ma.get("distribution"), Ma.get("values")] != [dist, v] or not w_ok:
                     ck.violation(rule, f.qualname, "numerator", f"deviations are not taken about _nanmean_weighted(distribution, values, weights) (found {M})", loc=f.loc())
                     continue
                 Mx = sp.log(M) if logn else M
